@@ -206,6 +206,48 @@ def check_one(ctx, rng, case, primary=True):
                               dict(wit, char=c, line=ln, got=TV.vis_json(v), want=TV.vis_json(before_map[c]),
                                    lines=[l.plain for l in lines], line_spans=repr(lines[ln].spans)))
                 break
+        # (b') blanks are characters too: a run of blanks that stays INSIDE an output line (between two characters
+        # that were neighbours-but-for-blanks in the source) carries the styles it had - a background colour or an
+        # underline across a gap does not vanish because the paragraph was wrapped.  Under 'full' justification
+        # blanks are added to a gap; the original ones must still be among them.
+        pos_src = {c: i for i, (c, _) in enumerate(before) if not c.isspace()}
+        by_line = {}
+        for c, v, ln in out_chars:
+            by_line.setdefault(ln, []).append((c, v))
+        blank_bad = None
+        for ln, row in by_line.items():
+            last = None
+            for j, (c, v) in enumerate(row):
+                if c.isspace() or c == "…" or c not in pos_src:
+                    continue
+                if last is not None and j > last + 1:
+                    px, py = pos_src[row[last][0]], pos_src[c]
+                    src_run = before[px + 1:py] if py > px else None
+                    out_run = row[last + 1:j]
+                    if src_run and all(x.isspace() and x not in "\t\n" for x, _ in src_run):
+                        ctx.count("mon.blank_run_style")
+                        if case["justify"] == "full":
+                            pool = [TV.vis_json(x) for _, x in out_run]
+                            for _, want_v in src_run:
+                                wj = TV.vis_json(want_v)
+                                if wj in pool:
+                                    pool.remove(wj)
+                                else:
+                                    blank_bad = (ln, src_run, out_run)
+                                    break
+                        elif len(out_run) == len(src_run) and [x for _, x in out_run] != [x for _, x in src_run]:
+                            blank_bad = (ln, src_run, out_run)
+                last = j
+                if blank_bad:
+                    break
+            if blank_bad:
+                break
+        if blank_bad:
+            ln, src_run, out_run = blank_bad
+            ctx.violation("blank-style-changed-by-wrap:justify=%s" % case["justify"],
+                          dict(wit, line=ln, lines=[l.plain for l in lines],
+                               blanks_before=[TV.vis_json(x) for _, x in src_run],
+                               blanks_after=[TV.vis_json(x) for _, x in out_run]))
         # (c) fold: a word is broken only when it (with indentation) is wider than the width
         if fold:
             ctx.count("mon.word_break_rule")
